@@ -24,6 +24,7 @@ enum Op {
     Random { from: usize, len: usize },
     Advance { ms: u64 },
     ForgedResponse { from: usize, what: &'static str, pending: bool, full: bool },
+    EndSession { id: u64, how: &'static str },
 }
 
 fn connected_addrs(nw: &NetWorld) -> Vec<SocketAddr> {
@@ -62,7 +63,7 @@ impl Property for C19 {
         "exploration"
     }
     fn rule(&self) -> String {
-        "A case = secure server with max_clients 1-3 in states empty / pending present / full / busy, up to 6 clients (tokens may share a client id) holding good, foreign-key, foreign-protocol, wrong-host and short-lived tokens; honest handshake steps build the state; adversarial presentations take any request or response datagram ever emitted by a not-yet-connected client and present it from its own or another unproven address exactly, padded to any length up to 1400, truncated, bit-flipped, prefix-modified or repeated, plus random bytes, plus responses in an authentic envelope (sealed with the sender's own key) that echo random bytes or the challenge issued to another client, also at pending addresses of a full server; the clock is stepped past token expiry. Oracle per datagram from an address that is not connected: the result is None, or one datagram to the same address strictly shorter than the input (PacketToSend or the payload inside ClientConnected); inputs that carry neither a valid token (by provenance: unmodified or only padded request minted with the server's key, protocol, host and unexpired, and not already used - answered - from a different address) nor a valid response (unmodified response of the client pending at that address) get None; never a Payload or a ClientDisconnected. Non-trivial: the input decodes as a request or response kind and is >= 18 bytes. Distinct = hash of the decoded operation trace.".into()
+        "A case = secure server with max_clients 1-3 in states empty / pending present / full / busy, up to 6 clients (tokens may share a client id) holding good, foreign-key, foreign-protocol, wrong-host and short-lived tokens; honest handshake steps build the state; adversarial presentations take any request or response datagram ever emitted by a not-yet-connected client and present it from its own or another unproven address exactly, padded to any length up to 1400, truncated, bit-flipped, prefix-modified or repeated, plus random bytes, plus responses in an authentic envelope (sealed with the sender's own key) that echo random bytes or the challenge issued to another client, also at pending addresses of a full server; sessions are ended by the server, by the client's disconnect packet or by a time-out (the address is unproven again, the token stays bound to it); the clock is stepped past token expiry. Oracle per datagram from an address that is not connected: the result is None, or one datagram to the same address strictly shorter than the input (PacketToSend or the payload inside ClientConnected); inputs that carry neither a valid token (by provenance: unmodified or only padded request minted with the server's key, protocol, host and unexpired, and not already used - answered - from a different address) nor a valid response (unmodified response of the client pending at that address) get None; never a Payload or a ClientDisconnected. Non-trivial: the input decodes as a request or response kind and is >= 18 bytes. Distinct = hash of the decoded operation trace.".into()
     }
     fn assumptions(&self) -> Vec<String> {
         vec!["'valid' is decided by provenance and the harness's knowledge of key, protocol id, host list and expiry".into()]
@@ -71,7 +72,7 @@ impl Property for C19 {
         PbtCfg { cases: tier.pick(400_000, 8_000_000), max_len: tier.pick(500, 1500), shrink_ms: 120_000 }
     }
     fn required_labels(&self) -> Vec<&'static str> {
-        vec!["valid_request", "padded_request", "valid_response", "invalid_token_request", "server_full", "denied_reply", "challenge_reply", "connected_reply", "expired_request", "request_other_address", "bound_token_other_address", "shared_client_id", "forged_response_at_pending", "forged_response_full_server"]
+        vec!["valid_request", "padded_request", "valid_response", "invalid_token_request", "server_full", "denied_reply", "challenge_reply", "connected_reply", "expired_request", "request_other_address", "bound_token_other_address", "shared_client_id", "forged_response_at_pending", "forged_response_full_server", "session_ended"]
     }
     fn run_choices(&self, ctx: &mut Ctx) -> Outcome {
         let mut nw = NetWorld::new(ctx.src.u16() as u64);
@@ -119,7 +120,7 @@ impl Property for C19 {
         let mut bound: std::collections::HashMap<usize, SocketAddr> = Default::default();
         while !ctx.src.exhausted() && ops < max_ops {
             ops += 1;
-            let op = match ctx.src.weighted(&[10, 14, 3, 3, 5]) {
+            let op = match ctx.src.weighted(&[10, 14, 3, 3, 5, 2]) {
                 0 => {
                     // honest step of one client: update, deliver, deliver the reply
                     let c = ctx.src.below(n);
@@ -278,6 +279,43 @@ impl Property for C19 {
                     nw.now += dt;
                     nw.server_advance(0, dt);
                     Op::Advance { ms }
+                }
+                5 => {
+                    // a session ends (kicked, quit, timed out): its address is unproven again, its token stays bound to it
+                    let ids = nw.servers[0].server.clients_id();
+                    if ids.is_empty() {
+                        continue;
+                    }
+                    let id = ids[ctx.src.below(ids.len())];
+                    let addr = nw.servers[0].server.client_addr(id);
+                    let how = match ctx.src.below(3) {
+                        0 => {
+                            nw.server_disconnect(0, id);
+                            "server_disconnect"
+                        }
+                        1 => {
+                            let Some(c) = (0..n).find(|&c| Some(nw.clients[c].addr) == addr && nw.clients[c].client.is_connected()) else { continue };
+                            if let Some(did) = nw.client_disconnect(c) {
+                                let d = nw.pool[did].clone();
+                                nw.pool[did].presented += 1;
+                                nw.server_recv(0, d.src, &d.bytes);
+                            }
+                            "client_disconnect"
+                        }
+                        _ => {
+                            let dt = Duration::from_secs(20);
+                            nw.now += dt;
+                            nw.server_advance(0, dt);
+                            for id in nw.servers[0].server.clients_id() {
+                                nw.server_update_client(0, id);
+                            }
+                            "timeout"
+                        }
+                    };
+                    if !nw.servers[0].server.clients_id().contains(&id) {
+                        ctx.label("session_ended");
+                    }
+                    Op::EndSession { id, how }
                 }
                 _ => {
                     // a response in an authentic envelope (sealed with the sender's own client-to-server key, as the holder of a token can)
